@@ -30,6 +30,7 @@ ALL_CONS = ["CollP", "CollP16", "CollF", "CollG", "OptP", "IfP", "TBP", "TBPe", 
 MISUSE_CONS = ["CollP32", "MisOpt", "MisTup", "MisSel", "MisSel2", "MisName", "MisName2", "MisUp", "MisFlagS", "MisEnumW", "MisBitS"]
 INVS = ["RoundTrip", "Compose", "SizeSound", "EndianAgnostic", "DecTotal", "DecProbe", "EncTotal"]
 TAILS = [b"", b"\x00", b"\xff\x01", b"\x00\x00\x07"]
+KEY_ORDERS = [0, "rev", 1, 2, 3, 4, 5]   # 0 = spec order; all 6 permutations for <= 3 keys, reverse for any size
 JVM = ("-XX:ParallelGCThreads=2", "-XX:CICompilerCount=2")   # many small JVMs side by side: keep each one narrow
 
 
@@ -220,16 +221,25 @@ def observe(spec, tree, cv, endian, tails, sd):
         except reflect.Unreflectable:
             obs["writes"].append({"pod": pod, "st": "shape"})
             continue
-        w = se.BufferWriter(endian)
-        st, exc = impl_call(w.write, spec, pv)
-        rec = {"pod": pod, "st": st}
-        if st == "ok":
-            rec["b"] = list(w.copy_buffer())
-            if data is None:
-                data = w.copy_buffer()
-        else:
-            rec["exc"] = exc
-        obs["writes"].append(rec)
+        # map-like values (template / dataclass dict input, FlagSwitch values, bitfield dicts) are unordered
+        # mappings: the same value is also written with its keys inserted in other orders
+        seen_orders = []
+        for order in KEY_ORDERS:
+            pv2 = pv if order == 0 else reflect.reorder(pv, order)
+            ko = reflect.key_orders(pv2)
+            if ko in seen_orders:
+                continue
+            seen_orders.append(ko)
+            w = se.BufferWriter(endian)
+            st, exc = impl_call(w.write, spec, pv2)
+            rec = {"pod": pod, "order": str(order), "st": st}
+            if st == "ok":
+                rec["b"] = list(w.copy_buffer())
+                if data is None:
+                    data = w.copy_buffer()
+            else:
+                rec["exc"] = exc
+            obs["writes"].append(rec)
     if data is not None:
         for pod in (False, True):
             for tail in (tails if sd else tails[:1]):
@@ -350,7 +360,7 @@ def replay_table(rec):
                 ctxinfo = {"tree": vt, "value": row["v"], "endian": endian, "spec_status": exp_st, "spec_bytes": list(exp_b)}
                 feat = {"top": base["k"], "flavour": flavour, "kinds": sorted(_kinds(base))}
                 for wr in obs["writes"]:
-                    mode = "pod" if wr["pod"] else "rich"
+                    mode = ("pod" if wr["pod"] else "rich") + ("" if wr.get("order", "0") == "0" else "+keys-permuted")
                     if wr["st"] == "shape":
                         raise common.MachineryError("bridge: value %s does not fit %s" % (json.dumps(row["v"])[:200], json.dumps(vt)[:300]))
                     if exp_st == "ok" and wr["st"] != "ok":
@@ -819,9 +829,15 @@ class Gen:
             for f in t["fs"]:
                 mask = (1 << f["bits"]) - 1
                 x = r.choice([0, mask, r.randrange(0, mask + 1)])
+                raw = x if t["shift"] else x << cur
                 if self.violate and r.random() < 0.4:
-                    x = mask + 1
-                ents.append({"n": f["n"], "v": cint(x if t["shift"] else x << cur)})
+                    if t["shift"] or cur == 0:
+                        raw = (mask + 1) if t["shift"] else (mask + 1) << cur
+                    else:
+                        # un-shifted member: bits above its mask, below its position, or both
+                        low = r.randrange(1, 1 << cur)
+                        raw = r.choice([(mask + 1) << cur, raw | low, ((mask + 1) << cur) | raw | low])
+                ents.append({"n": f["n"], "v": cint(raw)})
                 cur += f["bits"]
             return {"d": ents}
         if k == "tuple":
